@@ -73,7 +73,17 @@ const module = "github.com/TheManticoreProject/Manticore"
 var (
 	repo     = "/repo"
 	verifDir = "/verif"
+	outDir   = "/verif" // evidence/ and replays/ live here; VERIF_OUT redirects them (used when a seeded change is evaluated in a scratch worktree)
 )
+
+func init() {
+	if v := os.Getenv("VERIF_REPO"); v != "" {
+		repo = v
+	}
+	if v := os.Getenv("VERIF_OUT"); v != "" {
+		outDir = v
+	}
+}
 
 func goEnv() []string {
 	var env []string
@@ -461,7 +471,7 @@ func main() {
 		}
 		byKey[c.v.Key] = append(byKey[c.v.Key], c)
 	}
-	replayDir := filepath.Join(verifDir, "replays", prop)
+	replayDir := filepath.Join(outDir, "replays", prop)
 	os.MkdirAll(replayDir, 0o755)
 	// clear stale replays of this property
 	if ents, err := os.ReadDir(replayDir); err == nil && re == nil {
@@ -713,11 +723,11 @@ func main() {
 		"coverage": cov, "assumptions": spec.Assumptions, "wall_s": time.Since(t0).Seconds(), "violations": nViol,
 	}
 	eb, _ := json.MarshalIndent(ev, "", " ")
-	os.MkdirAll(filepath.Join(verifDir, "evidence"), 0o755)
+	os.MkdirAll(filepath.Join(outDir, "evidence"), 0o755)
 	if re == nil {
-		os.WriteFile(filepath.Join(verifDir, "evidence", prop+".json"), eb, 0o644)
+		os.WriteFile(filepath.Join(outDir, "evidence", prop+".json"), eb, 0o644)
 	} else {
-		os.WriteFile(filepath.Join(verifDir, "evidence", "_partial_"+prop+".json"), eb, 0o644)
+		os.WriteFile(filepath.Join(outDir, "evidence", "_partial_"+prop+".json"), eb, 0o644)
 	}
 	fmt.Printf("property=%s tier=%s instances=%d paths=%d obligations=%d (solver-decided %d) queries sat/unsat/unknown=%d/%d/%d solver=%.1fs wall=%.1fs violations=%d known=%d inconclusive=%d\n",
 		prop, *tier, len(insts), states, len(oblList), nontrivial, stats.Sat, stats.Unsat, stats.Unknown, stats.Time.Seconds(), time.Since(t0).Seconds(), nViol, len(knownLines), len(dedup(incon)))
@@ -816,8 +826,8 @@ func writeEvidenceFailure(prop, tier string, seed int, wall time.Duration, msg s
 	ev := map[string]any{"property_id": prop, "tier": tier, "seed": seed, "level": "model_checking",
 		"coverage": map[string]any{"evaluations": 0, "distinct_nontrivial": 0, "explanation": msg}, "wall_s": wall.Seconds(), "violations": 0}
 	eb, _ := json.MarshalIndent(ev, "", " ")
-	os.MkdirAll(filepath.Join(verifDir, "evidence"), 0o755)
-	os.WriteFile(filepath.Join(verifDir, "evidence", prop+".json"), eb, 0o644)
+	os.MkdirAll(filepath.Join(outDir, "evidence"), 0o755)
+	os.WriteFile(filepath.Join(outDir, "evidence", prop+".json"), eb, 0o644)
 }
 
 // ------------------------------------------------------------------ native replay
